@@ -9,7 +9,9 @@ From GF Require Import Base.Bytes Base.SortedMap Model.Prefix Model.Mem Model.Bu
    for every body (any length, empty included), key, metadata set, state and configuration *)
 Theorem C01_roundtrip : forall c s b k body m s1 vid,
   step c s (OPut b k body m) = (s1, RPut vid) ->
-  exists v sv, snd (step c s1 (OGet b k None)) = RObj v sv /\ vd_body v = body /\ vd_meta v = m.
+  exists v sv, snd (step c s1 (OGet b k None)) = RObj v sv /\ vd_body v = body /\
+               vd_meta v = carry_meta (fst (ensure_bucket c s b)) b k m /\
+               (forall kv, In kv m -> In kv (vd_meta v)).
 Proof. exact law_get_after_put. Qed.
 Print Assumptions C01_roundtrip.
 
@@ -39,7 +41,9 @@ Print Assumptions C01_copy_roundtrip.
 Theorem C01_copy_metadata : forall c s sb sk b k m s1 body,
   step c s (OCopy sb sk b k m) = (s1, RCopy body) ->
   exists v sv v' sv', get_object s sb sk = OObj v sv /\ get_object s1 b k = OObj v' sv' /\
-                      vd_meta v' = merge_meta m (vd_meta v) /\ vd_marker v' = false.
+                      vd_meta v' = carry_meta (fst (ensure_bucket c s b)) b k (merge_meta m (vd_meta v)) /\
+                      (forall kv, In kv (merge_meta m (vd_meta v)) -> In kv (vd_meta v')) /\
+                      vd_marker v' = false.
 Proof. exact law_copy_meta. Qed.
 Print Assumptions C01_copy_metadata.
 
